@@ -6,6 +6,7 @@ import (
 	"fmt"
 	"strings"
 	"testing"
+	"verif/h/vsel"
 
 	"github.com/simpleiot/simpleiot/client"
 	"github.com/simpleiot/simpleiot/data"
@@ -64,6 +65,10 @@ func c08Body(t *testing.T, depth int, order bool) mc.Body {
 	return func(x *mc.X) mc.Outcome {
 		var out mc.Outcome
 		bubble(t, func() {
+			vsel.SetHook(func(ready []int) int {
+				return x.Deviate(len(ready), fmt.Sprintf("manager select: ready cases %v", ready))
+			})
+			defer vsel.SetHook(nil)
 			g, err := newRig(x, false)
 			if err != nil {
 				out = mc.Outcome{Violation: "HARNESS: " + err.Error(), Key: "harness"}
